@@ -1157,7 +1157,9 @@ def evaluate(binary, base, exe, hists, flavours):
                 continue
             mo, mf = model_obs(m[mode])
             r[mode + "_lines"] = expected_lines(mo, mf is not None, uni)
-            r[mode + "_ok"] = got == r[mode + "_lines"] and rc_class(rc) == (mf or "ok")
+            # for C13 a Rust panic (101) and an mscript error (1) both stop the program; the class is recorded
+            r[mode + "_ok"] = got == r[mode + "_lines"] and ((rc in (1, 101)) if mf else rc == 0)
+            r[mode + "_class_ok"] = rc_class(rc) == (mf or "ok")
         # Coq specification vs the executable reading used here
         if "error" not in m:
             so_, sf_ = model_obs(m["spec"])
@@ -1194,6 +1196,13 @@ def shrink(binary, base, exe, hist, flavour, bad):
     return cur
 
 
+def diff_msg(exp, got):
+    n = 0
+    while n < len(exp) and n < len(got) and exp[n] == got[n]:
+        n += 1
+    return "stdout line %d: expected %r, got %r" % (n + 1, exp[n:n + 3], got[n:n + 3])
+
+
 def replay_of(r):
     return {"history": r["hist"], "program": r["text"], "expected_stdout_lines(specification)": r["spec_lines"],
             "expected_exit": "error exit (1 or 101)" if r["spec_failed"] else "0", "observed_stdout_lines": r["got"], "observed_rc": r["rc"],
@@ -1214,7 +1223,7 @@ def run(ctx):
     if legacy_mode:
         hists = [h for h in hists if not has_elem_literal(h)]
     n_sys = len(hists)
-    n_random = (160 if ctx.quick() else 4800)
+    n_random = (900 if ctx.quick() else 12000)
     tries = 0
     while len(hists) < n_sys + n_random and tries < 20 * n_random:
         tries += 1
@@ -1255,8 +1264,6 @@ def run(ctx):
         if r["spec_failed"]:
             n_fail_hist += 1
         key = model_line(r["hist"])
-        if key not in distinct and len(r["hist"]) >= 4 and (len({op[1] for op in r["hist"] if op[0] in ("alias", "clone", "mclone", "join")}) > 0):
-            pass
         distinct.add(key)
         if not r["coqspec_ok"]:
             ctx.report("spec-vs-oracle", "Coq specification (Containers/Spec.v) and the check's executable reading of the property disagree on %s" % key,
@@ -1281,17 +1288,21 @@ def run(ctx):
                     cls = "observation-differs:" + first_diff_op(rr)
                 reported += 1
                 spec_found = True
-                ctx.report(cls, "list/map history observed differently from the sequence / finite-map reading: expected %r (exit %s), got %r (rc %d)"
-                           % (rr["spec_lines"][-6:], "error" if rr["spec_failed"] else "0", rr["got"][-6:], rr["rc"]), replay_of(rr))
+                ctx.report(cls, "list/map history observed differently from the sequence / finite-map reading: %s; expected exit %s, got rc %d"
+                           % (diff_msg(rr["spec_lines"], rr["got"]), "error" if rr["spec_failed"] else "0", rr["rc"]), replay_of(rr))
         if not r[which + "_ok"]:
             dis += 1
             if r["spec_ok"] or legacy_mode:
                 # the property's own reading holds but the impl-model predicts something else (e.g. the failure class)
                 ctx.report(pre_fix or ("correspondence:" + first_diff_op(r)),
-                           "container model (%s) and implementation disagree: model %r exit %s, implementation %r rc %d"
-                           % (which, r.get(which + "_lines", [])[-6:], r["model"][which]["fail"] or "ok", r["got"][-6:], r["rc"]),
+                           "container model (%s) and implementation disagree: %s; model exit %s, implementation rc %d"
+                           % (which, diff_msg(r.get(which + "_lines", []), r["got"]), r["model"][which]["fail"] or "ok", r["rc"]),
                            dict(replay_of(r), correspondence="Containers/Model.v step vs BuiltInFunction::run / vec_op / map_op", model=r["model"][which]),
                            found_input=False)
+    class_mismatch = [r for r in res if r.get("compiled") and r.get(which + "_ok") and not r.get(which + "_class_ok")]
+    ctx.cov["failure_class_mismatches"] = len(class_mismatch)
+    ctx.cov["failure_class_mismatch_examples"] = [{"program": r["text"][-300:], "model": r["model"][which]["fail"], "rc": r["rc"], "stderr": r["stderr"][:200]}
+                                                  for r in class_mismatch[:3]]
     nontrivial = 0
     for r in res:
         h = r["hist"]
@@ -1341,15 +1352,8 @@ def first_diff_op(r):
                 return op[0]
             line += 1
         elif op[0] in ("keys", "values", "pairs"):
-            return op[0] if line >= n else first_after(r, op, line, n)
-        else:
-            # silent operation: a failure here shows as a missing tail
-            pass
+            return op[0]
     return r["hist"][-1][0] if r["hist"] else "empty"
-
-
-def first_after(r, op, line, n):
-    return op[0]
 
 
 if __name__ == "__main__":
